@@ -7,8 +7,10 @@ import (
 	"strings"
 	"time"
 
+	admissionv1 "k8s.io/api/admission/v1"
 	corev1 "k8s.io/api/core/v1"
 	metav1 "k8s.io/apimachinery/pkg/apis/meta/v1"
+	"k8s.io/apimachinery/pkg/runtime"
 	"k8s.io/apimachinery/pkg/types"
 	"k8s.io/apimachinery/pkg/util/validation/field"
 	clocktesting "k8s.io/utils/clock/testing"
@@ -25,6 +27,8 @@ import (
 	"github.com/furiko-io/furiko/pkg/execution/util/jobconfig"
 	"github.com/furiko-io/furiko/pkg/execution/util/parallel"
 	"github.com/furiko-io/furiko/pkg/execution/validation"
+	"github.com/furiko-io/furiko/pkg/execution/webhooks/jobconfigvalidatingwebhook"
+	"github.com/furiko-io/furiko/pkg/execution/webhooks/jobvalidatingwebhook"
 )
 
 // Family "validate" (C17): Validator.ValidateJobConfig / ValidateJob / ValidateJobUpdate against
@@ -37,6 +41,8 @@ func init() {
 
 var valExprPool = []string{
 	"0 10 * * *", "*/5 * * * *", "H * * * *", "H/15 * * * *", "0 0 1 1 *", "H H * * *", "@daily", "0 0 10 * * ? *", "H 0 10 * * *",
+	// whether these parse depends on the hash id (finding F18)
+	"H(0-0)/2 * * * *", "H(0-1)/7 * * * *", "H(0-2)/5 H * * *", "0 H(0-0)/3 * * *",
 	"0 0/5 * * * ?", "H(0-30) * * * *", "* * * * * * *",
 	"", " ", "61 * * * *", "bad", "* * *", "H(70-80) * * * *", "0 10 * * 8", "*/0 * * * *", "0 10 * * * * * *",
 }
@@ -228,7 +234,7 @@ func valJobConfigCase(c *PRNG, res *Result) {
 			s.Cron = &execution.CronSchedule{}
 			pool := valExprPool
 			if mostlyValid {
-				pool = valExprPool[:9]
+				pool = valExprPool[:13]
 			}
 			switch c.Intn(6) {
 			case 0, 1, 2:
@@ -295,6 +301,16 @@ func valJobConfigCase(c *PRNG, res *Result) {
 	errs = append(errs, val.ValidateJobConfigCreate(rjc)...)
 	accepted := len(mres.Errors) == 0 && len(errs) == 0
 	js["errors"] = fmt.Sprint(errs)
+	// the admission entry point itself decides as the rules do on the object sent
+	if raw, err := json.Marshal(rjc); err == nil {
+		hook, _ := jobconfigvalidatingwebhook.NewWebhook(sc)
+		resp, err := hook.Handle(context.Background(), &admissionv1.AdmissionRequest{Kind: gvkOf("JobConfig"), Operation: admissionv1.Create, Object: runtime.RawExtension{Raw: raw}})
+		if err != nil {
+			res.Hits = append(res.Hits, MonitorHit{"C17", "C17/webhook-error-on-create", fmt.Sprintf("the JobConfig validating webhook failed on a well-formed create: %v", err), js})
+		} else if resp.Allowed != (len(errs) == 0) {
+			res.Hits = append(res.Hits, MonitorHit{"C17", "C17/webhook-decision-differs-from-rules", fmt.Sprintf("the JobConfig validating webhook allowed=%v; the rules on the same object: %v", resp.Allowed, errs), js})
+		}
+	}
 
 	// the consumers
 	key := "ns/" + rjc.Name
@@ -325,11 +341,11 @@ func valJobConfigCase(c *PRNG, res *Result) {
 			_, perr := parser.Parse(e, h)
 			ptbl = append(ptbl, CPair(CPair(CStr(h), CStr(e)), CBool(perr == nil)))
 		}
-		// the property needs: what parses for validation (empty hash id) parses for the scheduler
-		_, e1 := parser.Parse(e, "")
-		for _, h := range []string{key, "ns/other", "x"} {
-			if _, e2 := parser.Parse(e, h); (e1 == nil) != (e2 == nil) {
-				hit("C17/parsability-depends-on-hash-id", fmt.Sprintf("expression %q: parses with hash id \"\": %v, with %q: %v", e, e1 == nil, h, e2 == nil))
+		// (whether an expression parses can depend on the hash id - "H(0-0)/2": finding F18,
+		// repaired - so validation tries the JobConfig's own key too; the tables carry both)
+		if _, e1 := parser.Parse(e, ""); e1 == nil {
+			if _, e2 := parser.Parse(e, key); e2 != nil {
+				res.Count("expression-valid-only-for-some-hash-ids")
 			}
 		}
 	}
@@ -550,6 +566,20 @@ func valUpdateCase(c *PRNG, res *Result) {
 	errs := validation.NewValidator(sc).ValidateJobUpdate(oldJ, newJ)
 	accepted := len(errs) == 0
 	js["old"], js["new"], js["errors"] = oldJ, newJ, fmt.Sprint(errs)
+	// the admission entry point itself: the validating webhook decodes the request and must
+	// decide exactly as the rules do on the two objects the API server sent
+	{
+		oldRaw, _ := json.Marshal(oldJ)
+		newRaw, _ := json.Marshal(newJ)
+		hook, _ := jobvalidatingwebhook.NewWebhook(sc)
+		resp, err := hook.Handle(context.Background(), &admissionv1.AdmissionRequest{Kind: gvkOf("Job"), Operation: admissionv1.Update,
+			Object: runtime.RawExtension{Raw: newRaw}, OldObject: runtime.RawExtension{Raw: oldRaw}})
+		if err != nil {
+			hit("C17/webhook-error-on-update", fmt.Sprintf("the validating webhook failed on a well-formed update: %v", err))
+		} else if want := accepted && len(validation.NewValidator(sc).ValidateJob(newJ)) == 0; resp.Allowed != want {
+			hit("C17/webhook-decision-differs-from-rules", fmt.Sprintf("the validating webhook allowed=%v; the rules (ValidateJob on the new object, ValidateJobUpdate on the two objects the API server sent) say %v (%v)", resp.Allowed, want, errs))
+		}
+	}
 	ver := func(cl []int64, kill *int64, st bool) string {
 		return CApp("mkJV", CZ(cl[0]), CZ(cl[1]), CZ(cl[2]), CZ(cl[3]), CZ(cl[4]), CZ(cl[5]), CZ(cl[6]), CZ(cl[7]), CZ(cl[8]), CZ(cl[9]), COptZ(kill), CBool(st))
 	}
